@@ -33,6 +33,7 @@ def run(prog, rep, tier='quick'):
     rep.rule('error-sign', 'in arcovar / modcovar the returned error adds |b|^2 and b^H A a with opposite sign parity relative to the un-negated data matrix and the least-squares solution')
     rep.rule('exact-solve', 'lstsq is called without cond / rcond (no singular-value truncation)')
     rep.rule('marple-normalisation', 'size signature of the returned variances == 1/(N-p)')
+    rep.rule('class-normalisation', 'pcovar.rho has size signature 1/(N-p) and pmodcovar.rho 1/(2(N-p)): the per-equation normalisation of the sibling Marple recursions')
     rep.rule('admission', 'no guard on (N, order) raises on the grid N=6..12, order=1..N/2 (arcovar, modcovar and the Marple recursions)')
     rep.rule('final-order-variance', 'a variance returned from inside the order loop depends (def-use within the iteration) on the coefficient stored in that iteration')
     rep.rule('final-order-unguarded', 'no raise-guard on a returned variance lies between its order update and the exit (return / break) taken at the final order of a Marple recursion')
@@ -251,6 +252,29 @@ def run(prog, rep, tier='quick'):
                 else:
                     rep.violation('marple-normalisation', f.qname, 'variance[%d] [%s]' % (i, ctx), 'the returned variance is normalised by '
                                   '%s, not by the number of equations N-p' % (('1/(%s)' % sp.simplify(1 / sz)) if sz not in (None, 0) else 'an unknown factor'), where)
+    # the PSD classes normalise the least-squares minimum the way the sibling Marple recursion does (per equation)
+    n_cn = 0
+    for mod, cname, want, txt in (('covar', 'pcovar', 1 / (NS - PS), 'N-p'), ('modcovar', 'pmodcovar', 1 / (2 * (NS - PS)), '2(N-p)')):
+        cls = prog.cls(mod, cname)
+        where = loc(cls.mod, cls.node)
+        for cplx in (False, True):
+            ctx = 'complex' if cplx else 'real'
+            ref, obj, itp, okc = C.run_class(prog, mod, cname, [C.data(cplx, phase=False), C.symint('P', 2, 'order')], {})
+            n_cn += 1
+            if blocked(rep, 'class-normalisation', cls.qname, ctx, itp):
+                continue
+            rho = obj.f.get('_ParametricSpectrum__rho') if (okc and obj is not None) else None
+            sz = getattr(rho, 'sz', None)
+            if not isinstance(rho, Num) or sz is None:
+                rep.undecided('class-normalisation', cls.qname, ctx, 'no size signature for the noise variance of the object', where)
+            elif sp.simplify(sz - want) == 0:
+                rep.proved('class-normalisation', cls.qname, 'rho [%s]' % ctx, 'size signature 1/(%s)' % txt, where)
+            else:
+                rep.violation('class-normalisation', cls.qname, 'rho [%s]' % ctx, 'the noise variance of the object is the least-squares minimum '
+                              'normalised by %s, not by the number of equations %s that the Marple recursion of the same method uses: rho '
+                              'and the PSD level differ from the per-sample minimum by a factor that depends on the order' %
+                              (('1/(%s)' % sp.simplify(1 / sz)) if sz != 0 else 'an unknown factor', txt), where)
+    rep.floor('class variances examined', n_cn, 4)
     # the variance returned from inside the order recursion includes the order update of the final order: in the iteration that
     # returns, every returned scalar is (re)computed from the coefficient stored in that iteration
     n_fo = 0
